@@ -70,6 +70,9 @@ type c13Case struct {
 }
 
 const c13ChainMax = 100
+
+// c13BulkMax bounds the children one bulk op creates.
+const c13BulkMax = 9000
 const c13MaxOps = 200
 
 // c13Res is what a run observed (statistics only).
@@ -294,6 +297,9 @@ func (rn *c13Runner) checkInner(when string) *vlib.Failure {
 			return vlib.Failf("%s: NumArgs(%s) = %d, it has %d children", when, rn.show(i), got, len(n.kids))
 		}
 		for p, k := range n.kids {
+			if len(n.kids) > 200 && p >= 50 && p < len(n.kids)-50 && p%97 != 0 {
+				continue // ArgAt walks the list: sample the positions of very long child lists
+			}
 			if got := tree.ArgAt(obj, uint32(p)); got == nil || got.index != uint32(k) {
 				return vlib.Failf("%s: ArgAt(%s, %d) is not child %s", when, rn.show(i), p, rn.show(k))
 			}
@@ -379,13 +385,13 @@ func (rn *c13Runner) create(when string, kind uint16, handle uint8, name int, vi
 		m.nodes = append(m.nodes, c13Node{})
 		rn.res.bump("create:pool-grew")
 	}
-	if tree.objPool[idx] != obj {
+	if tree.ObjectAt(uint32(idx)) != obj {
 		return -1, vlib.Failf("%s: the new object is not the one stored in pool slot %d", when, idx)
 	}
 	if obj.value != nil {
 		return -1, vlib.Failf("%s: the new object #%d carries a stale value", when, idx)
 	}
-	nn := c13Node{live: true, opcode: kind, handle: handle, parent: -1}
+	nn := c13Node{live: true, opcode: kind, handle: handle, parent: -1, ptr: obj}
 	if name >= 0 {
 		nn.named, nn.name = true, c13Names[name]
 	}
@@ -393,9 +399,19 @@ func (rn *c13Runner) create(when string, kind uint16, handle uint8, name int, vi
 	return idx, rn.check(when)
 }
 
+// obj returns the pointer the tree handed out for node i (the root: taken once,
+// when the tree was set up). Callers of the tree - the parser - keep such
+// pointers across later creations; so does the harness.
+func (rn *c13Runner) obj(i int) *Object {
+	if p := rn.m.nodes[i].ptr; p != nil {
+		return p
+	}
+	return rn.tree.ObjectAt(uint32(i))
+}
+
 func (rn *c13Runner) doAppend(when string, parent, child int) *vlib.Failure {
 	tree, m := rn.tree, &rn.m
-	if pc := vlib.Catch(func() { tree.append(tree.ObjectAt(uint32(parent)), tree.ObjectAt(uint32(child))) }); pc.Panicked {
+	if pc := vlib.Catch(func() { tree.append(rn.obj(parent), rn.obj(child)) }); pc.Panicked {
 		return vlib.Failf("%s: append(%s, %s) crashed: %v", when, rn.show(parent), rn.show(child), pc)
 	}
 	m.link(parent, child, len(m.nodes[parent].kids))
@@ -696,6 +712,43 @@ func (rn *c13Runner) step(when string, i int, op c13Op) *vlib.Failure {
 			parent = idx
 		}
 		return nil
+	case "bulk":
+		// a large namespace: hundreds to thousands of children under one scope, created and
+		// attached back to back (checked once at the end)
+		att := m.attached()
+		parent := att[c13Mod(op.A, len(att))]
+		n := op.B
+		if n < 1 {
+			n = 1
+		}
+		if n > c13BulkMax {
+			n = c13BulkMax
+		}
+		res.bump("bulk")
+		for j := 0; j < n; j++ {
+			var obj *Object
+			if pc := vlib.Catch(func() {
+				obj = tree.newNamedObject(pOpIntScopeBlock, handle, c13Names[c13Mod(op.N+j, len(c13Names))])
+				tree.append(rn.obj(parent), obj)
+			}); pc.Panicked || obj == nil {
+				return vlib.Failf("%s: creating and attaching child %d of %d crashed: %v", when, j, n, pc)
+			}
+			idx := int(obj.index)
+			nn := c13Node{live: true, opcode: pOpIntScopeBlock, handle: handle, parent: -1, ptr: obj, named: true, name: c13Names[c13Mod(op.N+j, len(c13Names))]}
+			if idx < len(m.nodes) {
+				if m.nodes[idx].live {
+					return vlib.Failf("%s: child %d got index %d, which belongs to a live object", when, j, idx)
+				}
+				m.nfree--
+				m.nodes[idx] = nn
+			} else if idx == len(m.nodes) {
+				m.nodes = append(m.nodes, nn)
+			} else {
+				return vlib.Failf("%s: child %d got index %d, the pool has %d slots", when, j, idx, len(m.nodes))
+			}
+			m.link(parent, idx, len(m.nodes[parent].kids))
+		}
+		return rn.check(fmt.Sprintf("%s: after creating and attaching %d children of %s", when, n, rn.show(parent)))
 	case "append", "after":
 		tops := m.detachedTops()
 		if len(tops) == 0 {
@@ -738,7 +791,7 @@ func (rn *c13Runner) step(when string, i int, op c13Op) *vlib.Failure {
 			res.bump("appendAfter:middle")
 		}
 		if pc := vlib.Catch(func() {
-			tree.appendAfter(tree.ObjectAt(uint32(p)), tree.ObjectAt(uint32(d)), tree.ObjectAt(uint32(t)))
+			tree.appendAfter(rn.obj(p), rn.obj(d), rn.obj(t))
 		}); pc.Panicked {
 			return vlib.Failf("%s: appendAfter(%s, %s, %s) crashed: %v", when, rn.show(p), rn.show(d), rn.show(t), pc)
 		}
@@ -758,7 +811,7 @@ func (rn *c13Runner) step(when string, i int, op c13Op) *vlib.Failure {
 		x := cands[c13Mod(op.A, len(cands))]
 		p := m.nodes[x].parent
 		res.bump("detach:" + rn.childPos(p, x))
-		if pc := vlib.Catch(func() { tree.detach(tree.ObjectAt(uint32(p)), tree.ObjectAt(uint32(x))) }); pc.Panicked {
+		if pc := vlib.Catch(func() { tree.detach(rn.obj(p), rn.obj(x)) }); pc.Panicked {
 			return vlib.Failf("%s: detach(%s, %s) crashed: %v", when, rn.show(p), rn.show(x), pc)
 		}
 		desc := fmt.Sprintf("%s: after detach(%s, %s)", when, rn.show(p), rn.show(x))
@@ -782,7 +835,7 @@ func (rn *c13Runner) step(when string, i int, op c13Op) *vlib.Failure {
 			res.bump("free:detached-leaf")
 		}
 		desc := fmt.Sprintf("%s: after free(%s)", when, rn.show(x))
-		if pc := vlib.Catch(func() { tree.free(tree.ObjectAt(uint32(x))) }); pc.Panicked {
+		if pc := vlib.Catch(func() { tree.free(rn.obj(x)) }); pc.Panicked {
 			return vlib.Failf("%s: free(%s) of a leaf crashed: %v", when, rn.show(x), pc)
 		}
 		m.unlink(x)
@@ -965,6 +1018,10 @@ func c13GenOp(t *rapid.T) c13Op {
 		op.A = sel("parent")
 		op.N = rapid.IntRange(0, 4).Draw(t, "name")
 		op.Op = rapid.IntRange(0, len(c13Kinds)-1).Draw(t, "opcode")
+	case "bulk":
+		op.A = sel("parent")
+		op.N = rapid.IntRange(0, 4).Draw(t, "name")
+		op.B = rapid.SampledFrom([]int{300, 1000, 2100, 4200, 4200, 8300}).Draw(t, "bulk")
 	case "chain":
 		op.A = sel("parent")
 		op.N = rapid.IntRange(0, 4).Draw(t, "name")
@@ -997,6 +1054,17 @@ func c13GenOps(t *rapid.T) []c13Op {
 	}
 	if len(ops) > c13MaxOps {
 		ops = ops[:c13MaxOps]
+	}
+	if rapid.IntRange(0, 149).Draw(t, "bulkcase") == 0 {
+		// a namespace of thousands of objects (real DSDTs have them): one bulk creation
+		// somewhere in a short history
+		if len(ops) > 40 {
+			ops = ops[:40]
+		}
+		b := c13Op{K: "bulk", A: rapid.IntRange(0, 299).Draw(t, "bulkparent"), N: rapid.IntRange(0, 4).Draw(t, "bulkname"),
+			B: rapid.SampledFrom([]int{300, 1000, 2100, 4200, 4200, 8300}).Draw(t, "bulk")}
+		at := rapid.IntRange(0, len(ops)).Draw(t, "bulkat")
+		ops = append(ops[:at], append([]c13Op{b}, ops[at:]...)...)
 	}
 	return ops
 }
